@@ -295,7 +295,7 @@ func c05ChecksumInputs(c *Check, a *Anchors) {
 							}
 						}
 					}
-					if !isFile && mentionsVia(info, loop.Body, arg, item, 3) {
+					if !isFile && mentionsViaMulti(info, loop.Body, arg, item, 3) {
 						gotName = true
 						// does the derivation throw the directory away
 						var walk func(e ast.Node, depth int)
